@@ -1,4 +1,5 @@
 import Qvnt.Props.C07
+import Qvnt.Props.Code.C07
 open Qvnt
 #print axioms C07_reported
 #print axioms C07_born
@@ -12,3 +13,6 @@ open Qvnt
 #print axioms C07_order
 #print axioms C07_linear_map
 #print axioms C07_cov
+#print axioms C07_code_weights
+#print axioms C07_code_weights_empty
+#print axioms C07_code_born
